@@ -34,8 +34,6 @@ import (
 	"verif/harness/internal/golib"
 )
 
-const ioTimeout = 3 * time.Second
-
 // ---------- op parsing ----------
 
 type item struct {
@@ -602,6 +600,7 @@ type Ex struct {
 	originTLSAddr string
 	sessions      []string
 	shaped        *trafficshape.Listener
+	ops           []string // the conn / item ops of the case, for a re-confirming second run
 }
 
 var caseCounter int
@@ -648,12 +647,14 @@ func (e *Ex) Do(op string) core.Result {
 	}
 	switch toks[0] {
 	case "conn":
+		e.ops = append(e.ops, op)
 		e.conn = parseKV(toks[1:])
 		return core.Result{Impl: "ok"}
 	case "x", "cmitm", "cblind":
 		if e.w == nil {
 			e.w = &world{recs: map[string]*exRec{}, items: map[string]*item{}}
 		}
+		e.ops = append(e.ops, op)
 		id := fmt.Sprintf("%d-%d", e.caseNo, len(e.ids))
 		e.ids = append(e.ids, id)
 		e.w.items[id] = &item{kind: toks[0], kv: parseKV(toks[1:]), raw: op}
@@ -663,7 +664,7 @@ func (e *Ex) Do(op string) core.Result {
 			e.w = &world{recs: map[string]*exRec{}, items: map[string]*item{}}
 		}
 		t0 := time.Now()
-		res := e.runScenario()
+		res := e.runConfirmed()
 		if d := time.Since(t0); d > 400*time.Millisecond && os.Getenv("VERIF_PXY_SLOW") != "" {
 			fmt.Fprintf(os.Stderr, "SLOW %v conn=%v\n", d, e.conn)
 			for _, id := range e.ids {
@@ -773,6 +774,7 @@ func (cc *clientConn) readResponse(method string) (*http.Response, []byte, error
 	cc.c.SetReadDeadline(time.Now().Add(ioTimeout))
 	res, err := http.ReadResponse(cc.br, &http.Request{Method: method})
 	if err != nil {
+		isTimeout(err)
 		return nil, nil, err
 	}
 	if method == "CONNECT" && res.StatusCode == 200 {
@@ -1027,12 +1029,15 @@ func (e *Ex) runScenario() core.Result {
 
 	// quiescence: every context of this connection must go away
 	left := -1
-	for i := 0; i < 200; i++ {
+	for i := 0; i < int(ioTimeout/(15*time.Millisecond)); i++ { // 2 s, longer when re-confirming
 		left = martian.VerifLiveContexts()
 		if left == 0 {
 			break
 		}
 		time.Sleep(10 * time.Millisecond)
+	}
+	if left != 0 {
+		hitBound()
 	}
 
 	return e.report(open, left, probeID)
@@ -1053,6 +1058,14 @@ func (timeoutError) Timeout() bool   { return true }
 func (timeoutError) Temporary() bool { return true }
 
 func isTimeout(err error) bool {
+	if timeoutErr(err) {
+		hitBound() // a verdict that rests on this is bound-dependent (reconfirm.go)
+		return true
+	}
+	return false
+}
+
+func timeoutErr(err error) bool {
 	var ne net.Error
 	return err != nil && errors.As(err, &ne) && ne.Timeout()
 }
